@@ -1,6 +1,222 @@
-import TuModel.Model.Corrupt
+/-
+  C15 — `corrupt::edit_word` changes a word by at most one edit of an enabled kind, never alters a
+  protected (excluded) character, and returns an exclusion set that stays inside the new word.
+  Model: `Tu.outcomes` / `Tu.editWord` (Model/Corrupt.lean); lemmas in Lemmas/CorruptL.lean.
+
+  Deviation: `editWord_mem_outcomes` is FALSE for the model as written when a context-table entry
+  carries an empty list of edit strings (then the chosen kind has no outcome at all; the Rust code panics
+  in `sample_edit`: `WeightedIndex::new(&[])` → `expect("invalid weights")`).  See the counterexample
+  below; the theorem is proved under `TablesNonempty c` (`editWord_mem_outcomes_partial`) and in the
+  unconditional form `editWord_mem_outcomes_or_unchanged`.
+-/
+import TuModel.Lemmas.CorruptL
 namespace Tu.C15
 open Tu
-theorem placeholder_kinds_nil (c : EditCfg) (h : c.kinds = []) (w : List Cl) (e : List Nat) :
-    outcomes c w e = [(w, normExcl e)] := by simp [outcomes, h]
+
+/-- evaluate a closed `outcomes` / `editWord` instance: `normExcl` (merge sort, well-founded recursion, stuck in
+the kernel) is first rewritten to the structurally recursive `normExclS` (`normExcl_eq_normExclS`) -/
+macro "corrupt_decide" : tactic =>
+  `(tactic| (try unfold outcomes
+             try unfold editWord
+             try unfold kindOutcomes
+             try unfold applyInsert
+             try unfold applyDelete
+             try unfold applyReplace
+             try unfold applySwap
+             simp only [normExcl_eq_normExclS]
+             decide))
+
+/-- the four ways a word can change by one edit -/
+inductive OneEdit (c : EditCfg) (word : List Cl) : List Cl → Prop
+  | ins (idx : Nat) (e : List Cl) : c.insert.isSome → idx ≤ word.length → OneEdit c word (word.take idx ++ e ++ word.drop idx)
+  | del (idx : Nat) : c.delete.isSome → idx < word.length → OneEdit c word (word.take idx ++ word.drop (idx + 1))
+  | rep (idx : Nat) (e : List Cl) : c.replace.isSome → idx < word.length → OneEdit c word (word.take idx ++ e ++ word.drop (idx + 1))
+  | swp (idx : Nat) : c.swap = true → idx + 1 < word.length →
+      OneEdit c word (word.take idx ++ word.getD (idx + 1) [] :: word.getD idx [] :: word.drop (idx + 2))
+
+/-- every listed outcome is the unchanged word with the normalised exclusion set, or the result of one
+admissible edit (edited positions not excluded) of an enabled kind -/
+theorem outcomes_cases {c : EditCfg} {word : List Cl} {excl : List Nat} {r : List Cl × List Nat}
+    (h : r ∈ outcomes c word excl) :
+    r = (word, normExcl excl) ∨
+    (∃ idx e, c.insert.isSome ∧ idx ≤ word.length ∧ idx ∉ excl ∧ (0 < idx → idx - 1 ∉ excl) ∧
+      r = applyInsert word excl idx e) ∨
+    (∃ idx, c.delete.isSome ∧ idx < word.length ∧ idx ∉ excl ∧ r = applyDelete word excl idx) ∨
+    (∃ idx e, c.replace.isSome ∧ idx < word.length ∧ idx ∉ excl ∧ r = applyReplace word excl idx e) ∨
+    (∃ idx, c.swap = true ∧ idx + 1 < word.length ∧ idx ∉ excl ∧ idx + 1 ∉ excl ∧ r = applySwap word excl idx) := by
+  rcases mem_outcomes h with h | ⟨kind, hk, hr⟩
+  · exact Or.inl h
+  · cases kind with
+    | ins =>
+      rcases mem_kindOutcomes_ins hr with h | ⟨idx, e, h1, h2, h3, h4⟩
+      · exact Or.inl h
+      · exact Or.inr (Or.inl ⟨idx, e, mem_kinds_ins.mp hk, h1, h2, h3, h4⟩)
+    | del =>
+      rcases mem_kindOutcomes_del hr with h | ⟨idx, h1, h2, h3⟩
+      · exact Or.inl h
+      · exact Or.inr (Or.inr (Or.inl ⟨idx, mem_kinds_del.mp hk, h1, h2, h3⟩))
+    | rep =>
+      rcases mem_kindOutcomes_rep hr with h | ⟨idx, e, h1, h2, h3⟩
+      · exact Or.inl h
+      · exact Or.inr (Or.inr (Or.inr (Or.inl ⟨idx, e, mem_kinds_rep.mp hk, h1, h2, h3⟩)))
+    | swp =>
+      rcases mem_kindOutcomes_swp hr with h | ⟨idx, h1, h2, h3, h4⟩
+      · exact Or.inl h
+      · exact Or.inr (Or.inr (Or.inr (Or.inr ⟨idx, mem_kinds_swp.mp hk, h1, h2, h3, h4⟩)))
+
+/-- **unchanged or exactly one edit of an enabled kind**, for every word, configuration, exclusion set
+and every random stream -/
+theorem outcomes_unchanged_or_one (c : EditCfg) (word : List Cl) (excl : List Nat) (r : List Cl × List Nat)
+    (h : r ∈ outcomes c word excl) : r.1 = word ∨ OneEdit c word r.1 := by
+  rcases outcomes_cases h with rfl | ⟨idx, e, hc, h1, _, _, rfl⟩ | ⟨idx, hc, h1, _, rfl⟩ |
+    ⟨idx, e, hc, h1, _, rfl⟩ | ⟨idx, hc, h1, _, _, rfl⟩
+  · exact Or.inl rfl
+  · exact Or.inr (.ins idx e hc h1)
+  · exact Or.inr (.del idx hc h1)
+  · exact Or.inr (.rep idx e hc h1)
+  · exact Or.inr (.swp idx hc h1)
+
+/-! ### `editWord` against `outcomes` -/
+
+/-- COUNTEREXAMPLE to the unconditional `editWord_mem_outcomes`: an insert table whose only entry (context
+`(<bow>, <eow>)`, i.e. the empty word) has NO edit strings.  `outcomes` is empty, the model's `editWord`
+falls back to the unchanged word (the Rust code panics in `sample_edit`). -/
+def cexCfg : EditCfg := { insert := some [((bow, eow), [])], delete := none, replace := none, swap := false, frozen := [] }
+
+example : outcomes cexCfg [] [] = [] := by decide
+example : editWord cexCfg [] [] 0 0 = ([], []) := by corrupt_decide
+example : ¬ (editWord cexCfg [] [] 0 0 ∈ outcomes cexCfg [] []) := by decide
+example : ¬ TablesNonempty cexCfg := by
+  intro h; exact h.1 _ rfl ((bow, eow), []) (by simp) rfl
+
+/-- unconditional form: a listed outcome, or — only if some enabled kind has no outcome at all — the
+unchanged word -/
+theorem editWord_mem_outcomes_or_unchanged (c : EditCfg) (word : List Cl) (excl : List Nat) (c1 c2 : Nat) :
+    editWord c word excl c1 c2 ∈ outcomes c word excl ∨
+    (editWord c word excl c1 c2 = (word, normExcl excl) ∧ ∃ kind ∈ c.kinds, kindOutcomes c word excl kind = []) :=
+  editWord_cases c word excl c1 c2
+
+/-- the choice-parametric function only produces listed outcomes (tables without empty entries) -/
+theorem editWord_mem_outcomes_partial (c : EditCfg) (hc : TablesNonempty c) (word : List Cl) (excl : List Nat)
+    (c1 c2 : Nat) : editWord c word excl c1 c2 ∈ outcomes c word excl := by
+  rcases editWord_cases c word excl c1 c2 with h | ⟨_, kind, _, hnil⟩
+  · exact h
+  · exact absurd hnil (kindOutcomes_ne_nil hc word excl kind)
+
+/-- every listed outcome is produced by some draws -/
+theorem outcomes_complete (c : EditCfg) (word : List Cl) (excl : List Nat) (r : List Cl × List Nat)
+    (h : r ∈ outcomes c word excl) : ∃ c1 c2, editWord c word excl c1 c2 = r := by
+  unfold outcomes at h
+  unfold editWord
+  cases hk : c.kinds with
+  | nil =>
+    rw [hk] at h
+    simp only [List.isEmpty_nil, if_true, List.mem_singleton] at h
+    exact ⟨0, 0, h.symm⟩
+  | cons k ks =>
+    rw [hk] at h
+    simp only [List.isEmpty_cons, Bool.false_eq_true, if_false, List.mem_flatMap] at h
+    obtain ⟨kind, hkind, hr⟩ := h
+    obtain ⟨i, hi, rfl⟩ := List.getElem_of_mem hkind
+    obtain ⟨j, hj, rfl⟩ := List.getElem_of_mem hr
+    refine ⟨i, j, ?_⟩
+    have hi' : i % (ks.length + 1) = i := Nat.mod_eq_of_lt (by simpa using hi)
+    simp only [hi']
+    have e1 : (k :: ks).getD i k = (k :: ks)[i] := by
+      rw [List.getD_eq_getElem?_getD, List.getElem?_eq_getElem hi]; rfl
+    rw [e1, Nat.mod_eq_of_lt hj, List.getD_eq_getElem?_getD, List.getElem?_eq_getElem hj]
+    rfl
+
+/-! ### exclusion set -/
+
+/-- **the returned exclusion set stays inside the new word** -/
+theorem outcomes_excl_bound (c : EditCfg) (word : List Cl) (excl : List Nat) (hex : ∀ i ∈ excl, i < word.length)
+    (r : List Cl × List Nat) (h : r ∈ outcomes c word excl) : ∀ j ∈ r.2, j < r.1.length := by
+  rcases outcomes_cases h with rfl | ⟨idx, e, _, h1, _, _, rfl⟩ | ⟨idx, _, h1, h2, rfl⟩ |
+    ⟨idx, e, _, h1, h2, rfl⟩ | ⟨idx, _, h1, _, _, rfl⟩
+  · intro j hj; exact hex j (mem_normExcl.mp hj)
+  · exact applyInsert_bound hex h1
+  · exact applyDelete_bound hex h1 h2
+  · exact applyReplace_bound hex h1 h2
+  · exact applySwap_bound hex h1
+
+/-- **protected characters are never altered**: every excluded position is re-indexed to a position of the
+result that holds the same character and is again excluded (holds even without the bound on `excl`) -/
+theorem outcomes_protected' (c : EditCfg) (word : List Cl) (excl : List Nat)
+    (r : List Cl × List Nat) (h : r ∈ outcomes c word excl) :
+    ∀ i ∈ excl, ∃ j, j ∈ r.2 ∧ r.1[j]? = word[i]? := by
+  rcases outcomes_cases h with rfl | ⟨idx, e, _, h1, _, _, rfl⟩ | ⟨idx, _, h1, h2, rfl⟩ |
+    ⟨idx, e, _, h1, h2, rfl⟩ | ⟨idx, _, h1, h2, h3, rfl⟩
+  · intro i hi; exact ⟨i, mem_normExcl.mpr hi, rfl⟩
+  · exact applyInsert_protected h1
+  · exact applyDelete_protected h1 h2
+  · exact applyReplace_protected h1 h2
+  · exact applySwap_protected h1 h2 h3
+
+/-- **protected characters are never altered** (headline form, with the bound hypothesis as stated in the claim) -/
+theorem outcomes_protected (c : EditCfg) (word : List Cl) (excl : List Nat) (_hex : ∀ i ∈ excl, i < word.length)
+    (r : List Cl × List Nat) (h : r ∈ outcomes c word excl) :
+    ∀ i ∈ excl, ∃ j, j ∈ r.2 ∧ r.1[j]? = word[i]? :=
+  outcomes_protected' c word excl r h
+
+/-- with the bound: the re-indexed position really holds a character (`some`), the same as before -/
+theorem outcomes_protected_some (c : EditCfg) (word : List Cl) (excl : List Nat) (hex : ∀ i ∈ excl, i < word.length)
+    (r : List Cl × List Nat) (h : r ∈ outcomes c word excl) :
+    ∀ i (hi : i ∈ excl), ∃ j, j ∈ r.2 ∧ r.1[j]? = some (word[i]'(hex i hi)) := by
+  intro i hi
+  obtain ⟨j, hj, he⟩ := outcomes_protected' c word excl r h i hi
+  exact ⟨j, hj, by rw [he, List.getElem?_eq_getElem (hex i hi)]⟩
+
+/-- one step of `editWord` (no assumption on the tables) keeps the exclusion set inside the word -/
+theorem editWord_excl_bound (c : EditCfg) (word : List Cl) (excl : List Nat) (hex : ∀ i ∈ excl, i < word.length)
+    (c1 c2 : Nat) : ∀ j ∈ (editWord c word excl c1 c2).2, j < (editWord c word excl c1 c2).1.length := by
+  rcases editWord_cases c word excl c1 c2 with h | ⟨h, _⟩
+  · exact outcomes_excl_bound c word excl hex _ h
+  · rw [h]; intro j hj; exact hex j (mem_normExcl.mp hj)
+
+/-- one step of `editWord` (no assumption on the tables) never alters a protected character -/
+theorem editWord_protected (c : EditCfg) (word : List Cl) (excl : List Nat) (c1 c2 : Nat) :
+    ∀ i ∈ excl, ∃ j, j ∈ (editWord c word excl c1 c2).2 ∧ (editWord c word excl c1 c2).1[j]? = word[i]? := by
+  rcases editWord_cases c word excl c1 c2 with h | ⟨h, _⟩
+  · exact outcomes_protected' c word excl _ h
+  · rw [h]; intro i hi; exact ⟨i, mem_normExcl.mpr hi, rfl⟩
+
+/-- the invariants compose over chains of repeated edits with the returned set (as `corrupt_spelling` does) -/
+theorem chain_excl_bound (c : EditCfg) : ∀ (steps : List (Nat × Nat)) (word : List Cl) (excl : List Nat),
+    (∀ i ∈ excl, i < word.length) →
+    let r := steps.foldl (fun (st : List Cl × List Nat) d => editWord c st.1 st.2 d.1 d.2) (word, excl)
+    ∀ j ∈ r.2, j < r.1.length := by
+  intro steps
+  induction steps with
+  | nil => intro word excl hex; exact hex
+  | cons d rest ih =>
+    intro word excl hex
+    simp only [List.foldl_cons]
+    exact ih (editWord c word excl d.1 d.2).1 (editWord c word excl d.1 d.2).2
+      (editWord_excl_bound c word excl hex d.1 d.2)
+
+/-! ### non-vacuity -/
+
+/-- insert table keyed by `(<bow>, 'a')`, delete, replace table keyed by `(<bow>, 'a', 'b')`, swap -/
+def exCfg : EditCfg :=
+  { insert := some [((bow, [97]), [[[120]], [[121], [122]]])], delete := some false,
+    replace := some [((bow, [97], [98]), [[], [[120], [121]]])], swap := true, frozen := [99] }
+
+example : TablesNonempty exCfg := by
+  refine ⟨?_, ?_⟩ <;> intro t ht en hen <;> cases ht <;> simp at hen <;> subst hen <;> simp
+
+example : outcomes { exCfg with delete := none, replace := none, swap := false } [[97], [98]] [] =
+    [([[120], [97], [98]], [0]), ([[121], [122], [97], [98]], [0, 1])] := by corrupt_decide
+example : outcomes { exCfg with delete := none, replace := none, swap := false } [[97], [98]] [0] =
+    [([[97], [98]], [0])] := by corrupt_decide
+example : outcomes { exCfg with insert := none, replace := none, swap := false } [[97], [98], [99]] [1] =
+    [([[98], [99]], [0])] := by corrupt_decide
+example : outcomes { exCfg with insert := none, delete := none, swap := false } [[97], [98], [100]] [2] =
+    [([[98], [100]], [1]), ([[120], [121], [98], [100]], [0, 1, 3])] := by corrupt_decide
+example : outcomes { exCfg with insert := none, delete := none, replace := none } [[97], [98], [100]] [2] =
+    [([[98], [97], [100]], [0, 1, 2])] := by corrupt_decide
+example : (outcomes exCfg [[97], [98], [100]] [2]).length = 7 := by corrupt_decide
+example : editWord exCfg [[97], [98], [100]] [2] 3 0 = ([[98], [97], [100]], [0, 1, 2]) := by corrupt_decide
+example : OneEdit exCfg [[97], [98], [100]] [[98], [97], [100]] := OneEdit.swp 0 rfl (by decide)
+
 end Tu.C15
